@@ -60,7 +60,7 @@ func parseRaces(log string) []raceReport {
 			}
 			if strings.Contains(file, "/verif/") {
 				if strings.Contains(fn, ".apiUser") {
-					fn = "API user: " + fn[strings.Index(fn, ".apiUser")+1:] + " (exported field read under the documented row lock)"
+					fn = "API user: " + fn[strings.Index(fn, ".apiUser")+1:] + " (harness code acting as an API user within the documented rules)"
 				} else {
 					harness = true
 				}
